@@ -41,6 +41,12 @@ CHECKS = {
  "C16": dict(level="exploration", technique="property-based end-to-end testing (rapid): generated workspaces, path layouts and flags through the built CLIs against an in-process reference (exit status, location resolution, file filters)",
    text="Workspaces in four path layouts (incl. the working directory's path occurring inside another path and a workspace under $GOPATH), ten header-comment variants on ordinary and test files, all exit codes and filter flags; exit status, printed locations (must resolve to real files) and the multiset of lines are compared with an in-process expectation for exactly the files that should be analysed.",
    note="Generated status is decided by the Go convention (ast.IsGenerated semantics re-implemented by construction of the headers); expectation uses the spec's selection function.", ref="4/C16"),
+ "C06": dict(level="exploration", technique="model-based property testing (rapid): generated enable/disable/tag lists through the built front-ends against an executable specification of the selection algebra; inert-parameter metamorphic check",
+   text="Lists over all checker names, tags, unknown/empty/duplicate entries with a focus checker placed independently in each list by name and by tag; the enabled set printed by each front-end (-v / -debug-init) must equal the specification for all 107 checkers at once; empty selections must be errors; diagnostics must be attributed to selected checkers; parameters (incl. bogus ruleguard rules/failOn) of unselected checkers must be inert; no-flag sets of all four binaries equal the default rule.",
+   note="Specification written from the property statement, not from the code; the analyzer is judged against its own documented flag defaults; whitespace-padded entries are not generated.", ref="4/C06"),
+ "C19": dict(level="exploration", technique="property-based fault injection (rapid): invalid configurations x front-ends x package counts, and workspaces with injected syntax/type/import faults, through the built binaries with a crash/hang/clean-failure oracle",
+   text="Five classes of invalid configuration (11 malformed -go spellings, unknown failOn, unmatched rules patterns incl. after a matching one, empty selections, unparsable parameter values) on all four binaries over 1-3 packages must exit non-zero with a message naming the problem, no crash trace and no diagnostics; packages with 1-2 injected faults of 12 kinds must never crash or hang any front-end.",
+   note="Crash = panic/fatal/signal trace in the output; hang = not finished within 150 s twice; crash signatures carry the failing call site.", ref="4/C19"),
 }
 
 NOT_YET = {}
